@@ -533,7 +533,7 @@ func layoutSpace(tier string, seed int64) []*LDoc {
 }
 
 func layoutRule() string {
-	return "layout documents (abstract trees over sections / columns / groups / wrappers / heroes / raws with exactly the flags the Lean Layout model reads: full-width, background-url, background-color, css-class, text-only, gutter, right-aligned text, blank raw), every content slot carrying a unique sentinel: EXHAUSTIVE for all body sequences of length ≤3 over a 20-block alphabet (8 420 documents) and all wrappers with ≤3 children over 8 child kinds × 4 configurations (2 340), plus seeded random trees. For each: real mjml.Render; the Lean lexer + Spec checkers (driver `oracle`) judge the real bytes (standard view, Outlook view, visibility and order of sentinels, document skeleton); the Lean Layout model (driver `layout`) must produce the same tag/comment skeleton (correspondence). A failing document is delta-debugged to a minimal shape while the same clause keeps failing; signature = minimal shape + clause. Non-trivial = document with ≥2 blocks or a wrapper with ≥1 child; distinct by shape encoding"
+	return "layout documents (abstract trees over sections / columns / groups / wrappers / heroes / raws with exactly the flags the Lean Layout model reads: full-width, background-url, background-color, css-class, text-only, gutter, right-aligned text, blank raw), every content slot carrying a unique sentinel: EXHAUSTIVE for all body sequences of length ≤3 over a 20-block alphabet (8 420 documents) and all wrappers with ≤3 children over 8 child kinds × 4 configurations (2 340), plus seeded random trees. For each: real mjml.Render; the Lean lexer + Spec checkers (driver `oracle`) judge the real bytes (standard view, Outlook view, visibility and order of sentinels, document skeleton); the Lean Layout model (driver `layout`) must produce the same tag/comment skeleton (correspondence). A failing document is delta-debugged to a minimal shape while the same clause keeps failing; signature = minimal shape + clause. Leaf sweep: every content component (text, button, image, divider, spacer, table, raw; navbar / social / accordion / carousel with 0–3 children and an mj-raw before, between and after them, three attribute sets each) in six contexts (column, second column, group, wrapper, hero, padded column), real output judged by the same Spec checkers. Non-trivial = document with ≥2 blocks or a wrapper with ≥1 child; distinct by shape encoding"
 }
 
 func runLayoutProp(prop string) runFn {
@@ -652,6 +652,8 @@ func runLayoutProp(prop string) runFn {
 				Input: map[string]string{"source": src, "shape": m.Enc(), "signature": strings.ReplaceAll(sig, " ", "_"), "shrunk_from": f.d.Enc()}})
 		})
 		res.Note("documents failing as the Model predicts: %d; failing otherwise: %d (distinct minimal shapes %d)", len(known), len(fails), len(seenShapes))
+		// the leaves the Layout model treats as opaque well-formed fragments: that hypothesis, on the real bytes
+		leafSweep(res, drv, prop)
 	}
 }
 
